@@ -137,8 +137,25 @@ Definition tlsm_json (t : tlsm) : json :=
   | TLocalIP rs => JObj (omit [("ranges", o_strs (flat_map range_json rs))])
   end.
 
+(* request matchers usable inside the http matcher: host / path / method, and not over them *)
+Inductive hm_kind := HkHost | HkPath | HkMethod.
+Definition hk_name (k : hm_kind) : string := match k with HkHost => "host" | HkPath => "path" | HkMethod => "method" end.
+Definition hsimple : Type := hm_kind * list string.
+Definition hsimple_seg (h : hsimple) : seg := Seg (hk_name (fst h) :: snd h) false [].
+Definition hsimple_json (h : hsimple) : json := JArr (map JStr (snd h)).
+Inductive httpm := HmSimple (h : hsimple) | HmNot (il : bool) (inner : list hsimple).
+Definition httpm_name (m : httpm) : string := match m with HmSimple h => hk_name (fst h) | HmNot _ _ => "not" end.
+Definition httpm_seg (m : httpm) : seg :=
+  match m with HmSimple h => hsimple_seg h | HmNot il inner => set_seg "not" il (map hsimple_seg inner) end.
+Definition httpm_json (m : httpm) : json :=
+  match m with
+  | HmSimple h => hsimple_json h
+  | HmNot _ inner => JArr [JObj (sort_kv (map (fun h => (hk_name (fst h), hsimple_json h)) inner))]
+  end.
+
 Inductive mleaf :=
 | MTls (quic il : bool) (subs : list tlsm)
+| MHttp (il : bool) (subs : list httpm)
 | MSsh | MXmpp | MPostgres | MProxyProtocol
 | MSocks4 (cmds : list string) (nets : list range) (ports : list N)
 | MSocks5 (auth : list N)
@@ -155,6 +172,7 @@ Inductive mleaf :=
 Definition mleaf_name (m : mleaf) : string :=
   match m with
   | MTls quic _ _ => if quic then "quic" else "tls"
+  | MHttp _ _ => "http"
   | MSsh => "ssh" | MXmpp => "xmpp" | MPostgres => "postgres" | MProxyProtocol => "proxy_protocol"
   | MSocks4 _ _ _ => "socks4" | MSocks5 _ => "socks5" | MRegexp _ _ => "regexp" | MClock _ _ => "clock"
   | MWireguard _ => "wireguard" | MWinbox _ _ => "winbox" | MRemoteIP _ => "remote_ip"
@@ -179,6 +197,7 @@ Definition key_sel (file : bool) (o : option (bool * string)) : option string :=
 Definition mleaf_seg (m : mleaf) : seg :=
   match m with
   | MTls quic il subs => set_seg (if quic then "quic" else "tls") il (map tlsm_seg subs)
+  | MHttp il subs => set_seg "http" il (map httpm_seg subs)
   | MSsh | MXmpp | MPostgres | MProxyProtocol => Seg [mleaf_name m] false []
   | MSocks4 cmds nets ports =>
       blockL "socks4" [] [("commands", occ_if cmds); ("networks", occ_if (map range_word nets));
@@ -237,6 +256,7 @@ Definition time0 : string := cstr l4clock_timeMin.
 Definition mleaf_json (m : mleaf) : json :=
   match m with
   | MTls _ _ subs => JObj (sort_kv (map (fun t => (tlsm_name t, tlsm_json t)) subs))
+  | MHttp _ subs => JArr [JObj (sort_kv (map (fun m => (httpm_name m, httpm_json m)) subs))]
   | MSsh | MXmpp | MPostgres | MProxyProtocol => JObj []
   | MSocks4 cmds nets ports =>
       JObj (omit [("commands", o_strs cmds); ("networks", o_strs (flat_map range_json nets));
@@ -438,26 +458,45 @@ Definition parse_tlsm (name : string) (e : seg) : option json :=
       else None
   | _ => None
   end.
-(* tokens of a repeated matcher name are appended to the first one's, and only the first segment
-   is handed to the matcher: later occurrences are dropped *)
+(* the loop shared by l4tls.ParseCaddyfileNestedMatcherSet and caddyhttp.ParseCaddyfileNestedMatcherSet:
+   "d.NextArg() || d.NextBlock(nesting)" - a same-line argument makes the set that single matcher
+   (with the rest of the line and the block), otherwise one matcher per directive of the block.
+   Tokens of a repeated matcher name are appended to the first one's; l4tls hands only the first
+   segment to the matcher (later occurrences are dropped), caddyhttp hands all of them (merge):
+   the model keeps the first, i.e. it covers caddyhttp only for distinct names. *)
 Fixpoint dedup_first (seen : list string) (l : list seg) : list seg :=
   match l with
   | [] => []
   | e :: r => if existsb (String.eqb (seg_name e)) seen then dedup_first seen r
               else e :: dedup_first (seg_name e :: seen) r
   end.
-(* MatchTLS / MatchQUIC.UnmarshalCaddyfile = l4tls.ParseCaddyfileNestedMatcherSet *)
-Definition parse_tls (e : seg) : option json :=
+Definition parse_flat_set (leafp : string -> seg -> option json) (e : seg) : option (list (string * json)) :=
   match e with
   | Seg (_ :: args) hb body =>
       let entries := match args with [] => body | _ => [Seg args hb body] end in
-      ms <- traverse (fun en => j <- parse_tlsm (seg_name en) en ;; Some (seg_name en, j)) (dedup_first [] entries) ;;
-      Some (JObj (sort_kv ms))
+      ms <- traverse (fun en => j <- leafp (seg_name en) en ;; Some (seg_name en, j)) (dedup_first [] entries) ;;
+      Some (sort_kv ms)
   | _ => None
   end.
+(* MatchTLS / MatchQUIC.UnmarshalCaddyfile *)
+Definition parse_tls (e : seg) : option json := option_map JObj (parse_flat_set parse_tlsm e).
+
+(* http.matchers host / path / method (Caddy): the arguments, as a JSON array of strings *)
+Definition parse_hsimple (name : string) (e : seg) : option json :=
+  if (name =? "host") || (name =? "path") || (name =? "method") then
+    match e with Seg (_ :: a :: rest) _ [] => Some (JArr (map JStr (a :: rest))) | _ => None end
+  else None.
+(* plus http.matchers.not over such matchers (caddyhttp MatchNot: one set per segment) *)
+Definition parse_httpm (name : string) (e : seg) : option json :=
+  if name =? "not" then option_map (fun ms => JArr [JObj ms]) (parse_flat_set parse_hsimple e)
+  else parse_hsimple name e.
+(* MatchHTTP.UnmarshalCaddyfile: caddyhttp.ParseCaddyfileNestedMatcherSet, a single set *)
+Definition parse_http (e : seg) : option json :=
+  option_map (fun ms => JArr [JObj ms]) (parse_flat_set parse_httpm e).
 
 Definition mleaf_parse (name : string) (e : seg) : option json :=
   if (name =? "tls") || (name =? "quic") then parse_tls e else
+  if name =? "http" then parse_http e else
   if (name =? "ssh") || (name =? "xmpp") || (name =? "postgres") || (name =? "proxy_protocol") then parse_bare e
   else if name =? "socks4" then parse_socks4 e
   else if name =? "socks5" then parse_socks5m e
@@ -484,7 +523,8 @@ Definition policy_name (p : policy) : string :=
 Record uptls := UpTLS {
   ut_insecure : bool; ut_server_name : option string; ut_renegotiation : option string;
   ut_timeout : option dur; ut_curves : list string; ut_except_ports : list string;
-  ut_client_auth : list string }.   (* [] | [automate] | [cert; key] *)
+  ut_client_auth : list string;     (* [] | [automate] | [cert; key] *)
+  ut_trust : option (list string) }. (* tls_trust_pool inline { trust_der <certs...> } *)
 Record upstream := Upstream {
   up_args : list string; up_dial : list string; up_max_conns : option Z; up_tls : option uptls }.
 
@@ -495,15 +535,49 @@ Record proxy_cfg := Proxy {
   px_policy : option policy; px_try_duration : option dur; px_try_interval : option dur;
   px_proxy_protocol : option string }.
 
+(* a float option value: an unsigned integer literal or a canonical decimal <int>.<frac> (no
+   leading zeros, last fractional digit non-zero), whose strconv.ParseFloat / encoding/json round
+   trip is the literal itself (assumed for at most 15 significant digits, no exponent form) *)
+Inductive rate := RInt (n : N) | RDec (ip : N) (frac : string).
+Definition rate_word (r : rate) : string :=
+  match r with RInt n => print_N n | RDec ip frac => (print_N ip ++ String "." frac)%string end.
+Definition rate_json (r : rate) : json :=
+  match r with RInt n => JNum (Z.of_N n) | RDec _ _ => JFloat (rate_word r) end.
+Definition o_rate (j : json) : option json := match j with JNum 0 => None | _ => Some j end.
+Definition or_json (o : option rate) : option json := match o with Some r => o_rate (rate_json r) | None => None end.
+Fixpoint str_digits (s : string) : bool :=
+  match s with EmptyString => true | String c r => is_digit c && str_digits r end.
+Fixpoint last_nonzero (s : string) : bool :=
+  match s with
+  | EmptyString => false
+  | String c EmptyString => negb (Ascii.eqb c "0")
+  | String _ r => last_nonzero r
+  end.
+Definition rate_ok (r : rate) : bool :=
+  match r with
+  | RInt _ => true
+  | RDec ip frac => str_digits frac && last_nonzero frac && (ip <? 1000000000)%N && (String.length frac <=? 6)%nat
+  end.
+Definition orate_ok (o : option rate) : bool := match o with Some r => rate_ok r | None => true end.
+
+(* tls handler: one connection policy (cert_selection and client_auth are not modelled) *)
+Record conn_policy := ConnPolicy {
+  cp_alpn : list string; cp_ciphers : list string; cp_curves : list string;
+  cp_default_sni : option string; cp_drop : bool; cp_fallback_sni : option string;
+  cp_secrets_log : option string; cp_protocols : list string;      (* [] | [min] | [min; max] *)
+  cp_match : option (bool * list tlsm) }.
+
 Inductive hleaf :=
+| HTls (cps : list conn_policy)
 | HEcho
 | HProxyProtocol (allow : list range) (timeout : option dur)
-| HThrottle (latency : option dur) (rbs : option Z) (rbps : option N) (trbs : option Z) (trbps : option N)
+| HThrottle (latency : option dur) (rbs : option Z) (rbps : option rate) (trbs : option Z) (trbps : option rate)
 | HSocks5 (bind_ip : option string) (commands : list string) (creds : list (string * string))
 | HProxy (c : proxy_cfg).
 
 Definition hleaf_name (h : hleaf) : string :=
   match h with
+  | HTls _ => "tls"
   | HEcho => "echo" | HProxyProtocol _ _ => "proxy_protocol" | HThrottle _ _ _ _ _ => "throttle"
   | HSocks5 _ _ _ => "socks5" | HProxy _ => "proxy"
   end.
@@ -511,6 +585,7 @@ Definition hleaf_name (h : hleaf) : string :=
 Definition odur_words (o : option dur) : option string := option_map print_dur o.
 Definition oz_words (o : option Z) : option string := option_map print_Z o.
 Definition on_words (o : option N) : option string := option_map print_N o.
+Definition orate_words (o : option rate) : option string := option_map rate_word o.
 
 Definition uptls_fields (t : uptls) : list field :=
   [("tls", [[]]); ("tls_client_auth", occ_if (ut_client_auth t)); ("tls_curves", occ_if (ut_curves t));
@@ -520,7 +595,14 @@ Definition uptls_fields (t : uptls) : list field :=
 Definition upstream_fields (u : upstream) : list field :=
   [("dial", occ_if (up_dial u)); ("max_connections", occ_opt (oz_words (up_max_conns u)))] ++
   match up_tls u with Some t => uptls_fields t | None => [] end.
-Definition upstream_seg (u : upstream) : seg := blockL "upstream" (up_args u) (upstream_fields u).
+Definition uptls_trust_seg (t : uptls) : list seg :=
+  match ut_trust t with
+  | Some certs => [Seg ["tls_trust_pool"; "inline"] true [mkline ("trust_der", certs)]]
+  | None => []
+  end.
+Definition upstream_seg (u : upstream) : seg :=
+  block "upstream" (up_args u)
+    (map mkline (render (upstream_fields u)) ++ match up_tls u with Some t => uptls_trust_seg t | None => [] end).
 Definition policy_words (p : policy) : list string :=
   policy_name p :: match p with PRandomChoose (Some n) => [print_Z n] | _ => [] end.
 Definition proxy_fields (c : proxy_cfg) : list field :=
@@ -535,16 +617,36 @@ Definition proxy_fields (c : proxy_cfg) : list field :=
    ("lb_try_interval", occ_opt (odur_words (px_try_interval c)));
    ("proxy_protocol", occ_opt (px_proxy_protocol c))].
 
+Definition conn_policy_fields (c : conn_policy) : list field :=
+  [("alpn", occ_if (cp_alpn c)); ("ciphers", occ_if (cp_ciphers c)); ("curves", occ_if (cp_curves c));
+   ("default_sni", occ_opt (cp_default_sni c)); ("drop", occ_flag (cp_drop c));
+   ("fallback_sni", occ_opt (cp_fallback_sni c)); ("insecure_secrets_log", occ_opt (cp_secrets_log c));
+   ("protocols", occ_if (cp_protocols c))].
+Definition cp_match_seg (c : conn_policy) : list seg :=
+  match cp_match c with Some (il, subs) => [set_seg "match" il (map tlsm_seg subs)] | None => [] end.
+Definition conn_policy_seg (c : conn_policy) : seg :=
+  Seg ["connection_policy"] true (map mkline (render (conn_policy_fields c)) ++ cp_match_seg c).
+Definition conn_policy_json (c : conn_policy) : json :=
+  JObj (omit [("match", match cp_match c with
+                        | Some (_, subs) => o_obj (sort_kv (map (fun t => (tlsm_name t, tlsm_json t)) subs))
+                        | None => None end);
+              ("cipher_suites", o_strs (cp_ciphers c)); ("curves", o_strs (cp_curves c)); ("alpn", o_strs (cp_alpn c));
+              ("protocol_min", o_str (match cp_protocols c with p :: _ => p | [] => "" end));
+              ("protocol_max", o_str (match cp_protocols c with _ :: p :: _ => p | _ => "" end));
+              ("drop", o_bool (cp_drop c)); ("default_sni", o_str (os (cp_default_sni c)));
+              ("fallback_sni", o_str (os (cp_fallback_sni c)));
+              ("insecure_secrets_log", o_str (os (cp_secrets_log c)))]).
 Definition hleaf_seg (h : hleaf) : seg :=
   match h with
+  | HTls cps => block "tls" [] (map conn_policy_seg cps)
   | HEcho => Seg ["echo"] false []
   | HProxyProtocol allow timeout =>
       blockL "proxy_protocol" [] [("allow", occ_if (map range_word allow)); ("timeout", occ_opt (odur_words timeout))]
   | HThrottle latency rbs rbps trbs trbps =>
       blockL "throttle" []
         [("latency", occ_opt (odur_words latency)); ("read_burst_size", occ_opt (oz_words rbs));
-         ("read_bytes_per_second", occ_opt (on_words rbps)); ("total_read_burst_size", occ_opt (oz_words trbs));
-         ("total_read_bytes_per_second", occ_opt (on_words trbps))]
+         ("read_bytes_per_second", occ_opt (orate_words rbps)); ("total_read_burst_size", occ_opt (oz_words trbs));
+         ("total_read_bytes_per_second", occ_opt (orate_words trbps))]
   | HSocks5 bind_ip commands creds =>
       blockL "socks5" []
         [("bind_ip", occ_opt bind_ip); ("commands", occ_if commands);
@@ -553,8 +655,11 @@ Definition hleaf_seg (h : hleaf) : seg :=
       block "proxy" (px_args c) (map mkline (render (proxy_fields c)) ++ map upstream_seg (px_upstreams c))
   end.
 
+Definition trust_json (certs : list string) : json :=
+  set_inline_t "provider" "inline" (JObj (omit [("trusted_ca_certs", o_strs certs)])).
 Definition uptls_json (t : uptls) : json :=
-  JObj (omit [("client_certificate_file", o_str (match ut_client_auth t with [c; _] => c | _ => "" end));
+  JObj (omit [("ca", option_map trust_json (ut_trust t));
+              ("client_certificate_file", o_str (match ut_client_auth t with [c; _] => c | _ => "" end));
               ("client_certificate_key_file", o_str (match ut_client_auth t with [_; k] => k | _ => "" end));
               ("client_certificate_automate", o_str (match ut_client_auth t with [a] => a | _ => "" end));
               ("insecure_skip_verify", o_bool (ut_insecure t));
@@ -576,12 +681,13 @@ Definition creds_json (creds : list (string * string)) : option json :=
 
 Definition hleaf_json (h : hleaf) : json :=
   match h with
+  | HTls cps => JObj (omit [("connection_policies", o_arr (map conn_policy_json cps))])
   | HEcho => JObj []
   | HProxyProtocol allow timeout =>
       JObj (omit [("timeout", o_num (od_ns timeout)); ("allow", o_strs (flat_map range_json allow))])
   | HThrottle latency rbs rbps trbs trbps =>
-      JObj (omit [("read_bytes_per_second", o_num (on_ rbps)); ("read_burst_size", o_num (oz rbs));
-                  ("total_read_bytes_per_second", o_num (on_ trbps)); ("total_read_burst_size", o_num (oz trbs));
+      JObj (omit [("read_bytes_per_second", or_json rbps); ("read_burst_size", o_num (oz rbs));
+                  ("total_read_bytes_per_second", or_json trbps); ("total_read_burst_size", o_num (oz trbs));
                   ("latency", o_num (od_ns latency))])
   | HSocks5 bind_ip commands creds =>
       JObj (omit [("commands", o_strs commands); ("bind_ip", o_str (os bind_ip)); ("credentials", creds_json creds)])
@@ -618,19 +724,29 @@ Definition parse_pp_handler (e : seg) : option json :=
     Some (JObj (omit [("timeout", o_num (oz ns)); ("allow", o_strs (expand_priv allow))]))
   else None.
 
-(* strconv.ParseFloat restricted to unsigned integer literals (the model's floats are integral) *)
-Definition parse_float_int (s : string) : option Z := option_map Z.of_N (parse_N s).
+(* strconv.ParseFloat on unsigned integer literals and canonical decimals, then encoding/json *)
+Definition parse_rate (s : string) : option json :=
+  let (a, b) := span_digits s in
+  match b with
+  | EmptyString => option_map (fun n => JNum (Z.of_N n)) (parse_N a)
+  | String c f =>
+      if Ascii.eqb c "." then
+        n <- parse_N a ;;
+        if (print_N n =? a) && str_digits f && last_nonzero f then Some (JFloat s) else None
+      else None
+  end.
+Definition oj_rate (o : option json) : option json := match o with Some j => o_rate j | None => None end.
 Definition parse_throttle (e : seg) : option json :=
   ls <- block_lines e ;;
   if known ["latency"; "read_burst_size"; "read_bytes_per_second"; "total_read_burst_size";
             "total_read_bytes_per_second"] ls then
     l <- once1 "latency" ls ;; lns <- omap parse_duration l ;;
     a <- once1 "read_burst_size" ls ;; az <- omap (parse_int 32) a ;;
-    b <- once1 "read_bytes_per_second" ls ;; bz <- omap parse_float_int b ;;
+    b <- once1 "read_bytes_per_second" ls ;; bz <- omap parse_rate b ;;
     c <- once1 "total_read_burst_size" ls ;; cz <- omap (parse_int 32) c ;;
-    d <- once1 "total_read_bytes_per_second" ls ;; dz <- omap parse_float_int d ;;
-    Some (JObj (omit [("read_bytes_per_second", o_num (oz bz)); ("read_burst_size", o_num (oz az));
-                      ("total_read_bytes_per_second", o_num (oz dz)); ("total_read_burst_size", o_num (oz cz));
+    d <- once1 "total_read_bytes_per_second" ls ;; dz <- omap parse_rate d ;;
+    Some (JObj (omit [("read_bytes_per_second", oj_rate bz); ("read_burst_size", o_num (oz az));
+                      ("total_read_bytes_per_second", oj_rate dz); ("total_read_burst_size", o_num (oz cz));
                       ("latency", o_num (oz lns))]))
   else None.
 
@@ -678,7 +794,22 @@ Definition parse_policy (ws : list string) : option json :=
       set_inline "policy" name j
   end.
 
-Definition parse_uptls (ls : lines) : option (option json) :=
+(* tls_trust_pool <module>: only Caddy's "inline" CA pool is modelled (trust_der <certs...>, repeatable) *)
+Definition parse_trust_pool (e : seg) : option json :=
+  match e with
+  | Seg [_; name] _ body =>
+      if name =? "inline" then
+        ls <- opt_lines body ;;
+        if known ["trust_der"] ls then
+          match List.concat (occurrences "trust_der" ls) with
+          | [] => None
+          | certs => set_inline "provider" "inline" (JObj (omit [("trusted_ca_certs", o_strs certs)]))
+          end
+        else None
+      else None
+  | _ => None
+  end.
+Definition parse_uptls (ls : lines) (tp : option json) : option (option json) :=
   t <- flag "tls" ls ;;
   ca <- once "tls_client_auth" ls ;;
   cav <- (match ca with None => Some [] | Some [a] => Some [a] | Some [c; k] => Some [c; k] | Some _ => None end) ;;
@@ -692,9 +823,11 @@ Definition parse_uptls (ls : lines) : option (option json) :=
   sn <- once1 "tls_server_name" ls ;;
   to <- once1 "tls_timeout" ls ;; tns <- omap parse_duration to ;;
   let present := t || is_some ca || negb (is_nil (occurrences "tls_curves" ls)) ||
-                 negb (is_nil (occurrences "tls_except_ports" ls)) || ins || is_some re || is_some sn || is_some to in
+                 negb (is_nil (occurrences "tls_except_ports" ls)) || ins || is_some re || is_some sn || is_some to ||
+                 is_some tp in
   if present then
     Some (Some (JObj (omit [
+      ("ca", tp);
       ("client_certificate_file", o_str (match cav with [c; _] => c | _ => "" end));
       ("client_certificate_key_file", o_str (match cav with [_; k] => k | _ => "" end));
       ("client_certificate_automate", o_str (match cav with [a] => a | _ => "" end));
@@ -709,15 +842,18 @@ Definition parse_uptls (ls : lines) : option (option json) :=
 Definition upstream_known : list string :=
   ["dial"; "max_connections"; "tls"; "tls_client_auth"; "tls_curves"; "tls_except_ports";
    "tls_insecure_skip_verify"; "tls_renegotiation"; "tls_server_name"; "tls_timeout"].
-(* tls_trust_pool and the deprecated tls_trusted_ca_* options are not modelled *)
+(* the deprecated tls_trusted_ca_* options are not modelled *)
 Definition parse_upstream (e : seg) : option json :=
   match e with
   | Seg (_ :: args) _ body =>
-      ls <- opt_lines body ;;
+      let tps := filter (fun s => seg_name s =? "tls_trust_pool") body in
+      let others := filter (fun s => negb (seg_name s =? "tls_trust_pool")) body in
+      ls <- opt_lines others ;;
       if known upstream_known ls then
+        tp <- (match tps with [] => Some None | [t] => option_map Some (parse_trust_pool t) | _ => None end) ;;
         dial <- multi "dial" ls ;;
         mc <- once1 "max_connections" ls ;; mcz <- omap (parse_int 32) mc ;;
-        tls <- parse_uptls ls ;;
+        tls <- parse_uptls ls tp ;;
         match args ++ dial with
         | [] => None
         | all => Some (JObj (omit [("dial", o_strs all); ("tls", tls); ("max_connections", o_num (oz mcz))]))
@@ -771,7 +907,41 @@ Definition parse_proxy (e : seg) : option json :=
   | _ => None
   end.
 
+(* unmarshalCaddyfileConnectionPolicy without cert_selection / client_auth *)
+Definition parse_conn_policy (e : seg) : option json :=
+  match e with
+  | Seg [_] _ body =>
+      let ms := filter (fun s => seg_name s =? "match") body in
+      let others := filter (fun s => negb (seg_name s =? "match")) body in
+      ls <- opt_lines others ;;
+      if known ["alpn"; "ciphers"; "curves"; "default_sni"; "drop"; "fallback_sni"; "insecure_secrets_log"; "protocols"] ls then
+        mj <- (match ms with [] => Some None | [m] => option_map Some (parse_flat_set parse_tlsm m) | _ => None end) ;;
+        alpn <- multi "alpn" ls ;; ci <- multi "ciphers" ls ;; cu <- multi "curves" ls ;;
+        ds <- once1 "default_sni" ls ;; dr <- flag "drop" ls ;; fs <- once1 "fallback_sni" ls ;;
+        sl <- once1 "insecure_secrets_log" ls ;;
+        pr <- once "protocols" ls ;;
+        prs <- (match pr with None => Some [] | Some [a] => Some [a] | Some [a; b] => Some [a; b] | Some _ => None end) ;;
+        Some (JObj (omit [("match", match mj with Some l => o_obj l | None => None end);
+                          ("cipher_suites", o_strs ci); ("curves", o_strs cu); ("alpn", o_strs alpn);
+                          ("protocol_min", o_str (match prs with p :: _ => p | [] => "" end));
+                          ("protocol_max", o_str (match prs with _ :: p :: _ => p | _ => "" end));
+                          ("drop", o_bool dr); ("default_sni", o_str (os ds)); ("fallback_sni", o_str (os fs));
+                          ("insecure_secrets_log", o_str (os sl))]))
+      else None
+  | _ => None
+  end.
+Definition parse_tls_handler (e : seg) : option json :=
+  match e with
+  | Seg [_] _ body =>
+      if forallb (fun s => seg_name s =? "connection_policy") body then
+        cps <- traverse parse_conn_policy body ;;
+        Some (JObj (omit [("connection_policies", o_arr cps)]))
+      else None
+  | _ => None
+  end.
+
 Definition hleaf_parse (name : string) (e : seg) : option json :=
+  if name =? "tls" then parse_tls_handler e else
   if name =? "echo" then parse_bare e
   else if name =? "proxy_protocol" then parse_pp_handler e
   else if name =? "throttle" then parse_throttle e
@@ -806,9 +976,16 @@ Definition tlsm_ok (t : tlsm) : bool :=
   | TRemoteIP rs => negb (is_nil rs) && forallb neg_range_ok rs
   | TLocalIP rs => negb (is_nil rs) && forallb range_ok rs
   end.
+Definition hsimple_ok (h : hsimple) : bool := negb (is_nil (snd h)).
+Definition httpm_ok (m : httpm) : bool :=
+  match m with
+  | HmSimple h => hsimple_ok h
+  | HmNot _ inner => negb (has_dup (map (fun h => hk_name (fst h)) inner)) && forallb hsimple_ok inner
+  end.
 Definition mleaf_ok (m : mleaf) : bool :=
   match m with
   | MTls _ _ subs => negb (has_dup (map tlsm_name subs)) && forallb tlsm_ok subs
+  | MHttp _ subs => negb (has_dup (map httpm_name subs)) && forallb httpm_ok subs
   | MSsh | MXmpp | MPostgres | MProxyProtocol => true
   | MSocks4 _ nets ports => forallb range_ok nets && forallb (nbits_ok 16) ports
   | MSocks5 auth => forallb (nbits_ok 8) auth
@@ -828,6 +1005,7 @@ Definition mleaf_ok (m : mleaf) : bool :=
 
 Definition uptls_ok (t : uptls) : bool :=
   odur_ok (ut_timeout t) && (List.length (ut_client_auth t) <=? 2)%nat &&
+  match ut_trust t with Some certs => negb (is_nil certs) | None => true end &&
   match ut_renegotiation t with
   | Some v => (v =? "never") || (v =? "once") || (v =? "freely")
   | None => true
@@ -837,11 +1015,20 @@ Definition upstream_ok (u : upstream) : bool :=
   match up_tls u with Some t => uptls_ok t | None => true end.
 Definition policy_ok (p : policy) : bool :=
   match p with PRandomChoose (Some n) => int32_ok n | _ => true end.
+Definition conn_policy_ok (c : conn_policy) : bool :=
+  (List.length (cp_protocols c) <=? 2)%nat &&
+  match cp_match c with
+  | Some (_, subs) => negb (has_dup (map tlsm_name subs)) && forallb tlsm_ok subs
+  | None => true
+  end.
+
 Definition hleaf_ok (h : hleaf) : bool :=
   match h with
   | HEcho => true
   | HProxyProtocol allow timeout => forallb range_ok allow && odur_ok timeout
-  | HThrottle latency rbs _ trbs _ => odur_ok latency && oint32_ok rbs && oint32_ok trbs
+  | HThrottle latency rbs rbps trbs trbps =>
+      odur_ok latency && oint32_ok rbs && oint32_ok trbs && orate_ok rbps && orate_ok trbps
+  | HTls cps => forallb conn_policy_ok cps
   | HSocks5 _ _ creds => negb (has_dup (map fst creds))
   | HProxy c =>
       forallb upstream_ok (px_upstreams c) &&
